@@ -1,1 +1,308 @@
-//! placeholder
+//! Leaf futures of `bytes::r#async` (C15, C01): ONE-STEP INDUCTIVE contracts on `Future::poll`.
+//!
+//! Each harness starts from an ARBITRARY state of the future that satisfies the invariant `I`
+//! (its private fields are reachable because this module is compiled inside `bytes::r#async`) and
+//! lets the source/sink behave arbitrarily for one `poll`: any chunk size, `Pending`, end of
+//! stream, reset, disconnect. It shows that `I` is preserved on `Pending` and that every `Ready`
+//! outcome is the specified one. By induction on the number of polls the contract holds for every
+//! chunking of the input and every pattern of `Pending` results - with no bound on either.
+#![allow(dead_code, unused_imports, missing_docs)]
+use super::*;
+use crate::verif_kani::spec;
+use std::task::Waker;
+
+/// Source with fully nondeterministic behaviour; `data[..len]` is the whole stream.
+pub struct Src {
+    pub data: [u8; 16],
+    pub pos: usize,
+    pub len: usize,
+    pub last: u8, // 0 pending, 1 reset, 2 not-connected, 3 data/eof
+}
+
+impl AsyncRead for Src {
+    fn poll_read(self: Pin<&mut Self>, _cx: &mut Context<'_>, buf: &mut [u8]) -> Poll<std::io::Result<usize>> {
+        let this = self.get_mut();
+        let choice: u8 = kani::any();
+        kani::assume(choice <= 3);
+        this.last = choice;
+        if choice == 0 {
+            return Poll::Pending;
+        }
+        if choice == 1 {
+            return Poll::Ready(Err(IoErrorKind::ConnectionReset.into()));
+        }
+        if choice == 2 {
+            return Poll::Ready(Err(IoErrorKind::NotConnected.into()));
+        }
+        let avail = this.len - this.pos;
+        let max = if avail < buf.len() { avail } else { buf.len() };
+        let k: usize = kani::any();
+        // AsyncRead contract: 0 iff `buf` is empty or the source is exhausted
+        kani::assume(k <= max && (k > 0 || max == 0));
+        let mut i = 0;
+        while i < 8 {
+            if i < k {
+                buf[i] = this.data[this.pos + i];
+            }
+            i += 1;
+        }
+        this.pos += k;
+        Poll::Ready(Ok(k))
+    }
+}
+
+/// Sink accepting an arbitrary non-empty prefix of what it is offered (or Pending / errors).
+pub struct Sink {
+    pub data: [u8; 16],
+    pub pos: usize,
+    pub last: u8,
+}
+
+impl AsyncWrite for Sink {
+    fn poll_write(self: Pin<&mut Self>, _cx: &mut Context<'_>, buf: &[u8]) -> Poll<std::io::Result<usize>> {
+        let this = self.get_mut();
+        let choice: u8 = kani::any();
+        kani::assume(choice <= 3);
+        this.last = choice;
+        if choice == 0 {
+            return Poll::Pending;
+        }
+        if choice == 1 {
+            return Poll::Ready(Err(IoErrorKind::ConnectionReset.into()));
+        }
+        if choice == 2 {
+            return Poll::Ready(Err(IoErrorKind::NotConnected.into()));
+        }
+        let k: usize = kani::any();
+        // AsyncWrite contract: never Ok(0) for a non-empty buffer
+        kani::assume(k >= 1 && k <= buf.len() && this.pos + k <= 16);
+        let mut i = 0;
+        while i < 8 {
+            if i < k {
+                this.data[this.pos + i] = buf[i];
+            }
+            i += 1;
+        }
+        this.pos += k;
+        Poll::Ready(Ok(k))
+    }
+}
+
+fn ctx_poll<F: Future + Unpin>(f: &mut F) -> Poll<F::Output> {
+    let waker = Waker::noop();
+    let mut cx = Context::from_waker(waker);
+    Pin::new(f).poll(&mut cx)
+}
+
+// ---- GetVarint -----------------------------------------------------------------------------------
+
+/// Invariant I of `GetVarint` after `offset` bytes were taken from the source starting at `start`:
+/// offset <= varint_size <= 8; offset == 0 <=> varint_size == 0; offset > 0 => varint_size ==
+/// length announced by the first byte, offset < varint_size never exceeds it; the bytes stored are
+/// exactly the bytes taken; the source position is start + offset (nothing over-read, nothing lost).
+#[kani::proof]
+#[kani::unwind(10)]
+pub fn p_get_varint_poll_step() {
+    let data: [u8; 16] = kani::any();
+    let len: usize = kani::any();
+    let start: usize = kani::any();
+    let offset: usize = kani::any();
+    kani::assume(len <= 16 && start <= 8 && start <= len);
+    // arbitrary I-state
+    kani::assume(offset <= 8 && start + offset <= len);
+    let varint_size = if offset == 0 { 0 } else { spec::varint_len_from_first(data[start]) };
+    kani::assume(offset == 0 || offset < varint_size);
+    let mut src = Src { data, pos: start + offset, len, last: 9 };
+    let mut buffer = [0u8; VarInt::MAX_SIZE];
+    let mut i = 0;
+    while i < 8 {
+        if i < offset {
+            buffer[i] = data[start + i];
+        }
+        i += 1;
+    }
+    let mut fut = GetVarint { reader: &mut src, buffer, offset, varint_size };
+    let res = ctx_poll(&mut fut);
+    let (o2, vs2, b2) = (fut.offset, fut.varint_size, fut.buffer);
+    let pos = src.pos;
+    let taken = pos - start;
+    // never over-reads: at most the announced length is ever taken from the source
+    assert!(taken == o2);
+    if o2 > 0 {
+        assert!(vs2 == spec::varint_len_from_first(data[start]));
+        assert!(o2 <= vs2);
+        let j: usize = kani::any();
+        if j < o2 {
+            assert!(b2[j] == data[start + j]);
+        }
+    } else {
+        assert!(vs2 == 0);
+    }
+    match res {
+        Poll::Pending => {
+            assert!(src.last == 0);
+            assert!(o2 == 0 || o2 < vs2); // I again
+        }
+        Poll::Ready(Ok(v)) => {
+            let n = spec::varint_len_from_first(data[start]);
+            assert!(taken == n);
+            assert!(v.into_inner() == spec::varint_value(&data[start..], n));
+            assert!(v.into_inner() <= spec::VARINT_MAX);
+        }
+        Poll::Ready(Err(IoReadError::ImmediateFin)) => {
+            assert!(taken == 0 && pos == len && src.last == 3);
+        }
+        Poll::Ready(Err(IoReadError::UnexpectedFin)) => {
+            assert!(taken >= 1 && pos == len && src.last == 3);
+        }
+        Poll::Ready(Err(IoReadError::Reset)) => { assert!(src.last == 1); }
+        Poll::Ready(Err(IoReadError::NotConnected)) => { assert!(src.last == 2); }
+    }
+    kani::cover!(matches!(res, Poll::Ready(Ok(_))) && offset > 0 && taken == 8);
+    kani::cover!(matches!(res, Poll::Ready(Ok(_))) && offset == 0 && taken == 4);
+    kani::cover!(matches!(res, Poll::Pending) && o2 > offset);
+    kani::cover!(matches!(res, Poll::Ready(Err(IoReadError::ImmediateFin))));
+    kani::cover!(matches!(res, Poll::Ready(Err(IoReadError::UnexpectedFin))));
+}
+
+/// Base case: the constructor establishes I with offset 0.
+#[kani::proof]
+pub fn p_get_varint_new_establishes_invariant() {
+    let mut src = Src { data: kani::any(), pos: 0, len: 0, last: 9 };
+    let f = GetVarint::new(&mut src);
+    assert!(f.offset == 0 && f.varint_size == 0);
+}
+
+// ---- GetBuffer -----------------------------------------------------------------------------------
+
+#[kani::proof]
+#[kani::unwind(10)]
+pub fn p_get_buffer_poll_step() {
+    let data: [u8; 16] = kani::any();
+    let len: usize = kani::any();
+    let start: usize = kani::any();
+    let want: usize = kani::any();
+    let offset: usize = kani::any();
+    kani::assume(len <= 16 && start <= 8 && start <= len && want <= 8);
+    // arbitrary I-state: offset < want bytes already stored == bytes taken (offset == want only if want == 0)
+    kani::assume(offset <= want && (offset < want || want == 0) && start + offset <= len);
+    let mut src = Src { data, pos: start + offset, len, last: 9 };
+    let mut storage = [0u8; 8];
+    let mut i = 0;
+    while i < 8 {
+        if i < offset {
+            storage[i] = data[start + i];
+        }
+        i += 1;
+    }
+    let res;
+    let o2;
+    {
+        let mut fut = GetBuffer { reader: &mut src, buffer: &mut storage[..want], offset };
+        res = ctx_poll(&mut fut);
+        o2 = fut.offset;
+    }
+    let pos = src.pos;
+    let taken = pos - start;
+    assert!(taken == o2 && o2 <= want);
+    let j: usize = kani::any();
+    if j < o2 {
+        assert!(storage[j] == data[start + j]);
+    }
+    match res {
+        Poll::Pending => { assert!(src.last == 0 && o2 < want); }
+        Poll::Ready(Ok(())) => { assert!(taken == want); }
+        Poll::Ready(Err(IoReadError::ImmediateFin)) => { assert!(taken == 0 && want > 0 && pos == len); }
+        Poll::Ready(Err(IoReadError::UnexpectedFin)) => { assert!(taken >= 1 && taken < want && pos == len); }
+        Poll::Ready(Err(IoReadError::Reset)) => { assert!(src.last == 1); }
+        Poll::Ready(Err(IoReadError::NotConnected)) => { assert!(src.last == 2); }
+    }
+    kani::cover!(matches!(res, Poll::Ready(Ok(()))) && want == 8 && offset == 3);
+    kani::cover!(matches!(res, Poll::Ready(Ok(()))) && want == 0);
+    kani::cover!(matches!(res, Poll::Pending) && o2 > offset);
+    kani::cover!(matches!(res, Poll::Ready(Err(IoReadError::UnexpectedFin))));
+}
+
+// ---- PutVarint / PutBuffer -----------------------------------------------------------------------
+
+/// `PutVarint::new` encodes exactly the RFC bytes; one poll from any progress state writes only
+/// bytes of that encoding, in order, and completes exactly when all `size(v)` bytes are out.
+#[kani::proof]
+#[kani::unwind(10)]
+pub fn p_put_varint_poll_step() {
+    let v: VarInt = kani::any();
+    let mut sink = Sink { data: [0; 16], pos: 0, last: 9 };
+    let offset: usize = kani::any();
+    let n = spec::varint_len(v.into_inner());
+    let res;
+    let o2;
+    {
+        let mut fut = PutVarint::new(&mut sink, v);
+        // constructor: buffer == RFC encoding, size exact
+        assert!(fut.varint_size == n && fut.offset == 0);
+        let j: usize = kani::any();
+        if j < n {
+            assert!(fut.buffer[j] == spec::varint_byte(v.into_inner(), j));
+        }
+        // arbitrary progress
+        kani::assume(offset < n);
+        fut.offset = offset;
+        res = ctx_poll(&mut fut);
+        o2 = fut.offset;
+    }
+    let written = sink.pos;
+    assert!(o2 == offset + written && o2 <= n);
+    let j: usize = kani::any();
+    if j < written {
+        assert!(sink.data[j] == spec::varint_byte(v.into_inner(), offset + j));
+    }
+    match res {
+        Poll::Pending => { assert!(sink.last == 0 && o2 < n); }
+        Poll::Ready(Ok(())) => { assert!(o2 == n); }
+        Poll::Ready(Err(IoWriteError::Stopped)) => { assert!(sink.last == 1); }
+        Poll::Ready(Err(IoWriteError::NotConnected)) => { assert!(sink.last == 2); }
+    }
+    kani::cover!(matches!(res, Poll::Ready(Ok(()))) && n == 8 && offset == 0);
+    kani::cover!(matches!(res, Poll::Pending) && o2 > offset);
+}
+
+#[kani::proof]
+#[kani::unwind(10)]
+pub fn p_put_buffer_poll_step() {
+    let src: [u8; 8] = kani::any();
+    let total: usize = kani::any();
+    let offset: usize = kani::any();
+    kani::assume(total <= 8 && offset <= total && (offset < total || total == 0));
+    let mut sink = Sink { data: [0; 16], pos: 0, last: 9 };
+    let res;
+    let o2;
+    {
+        let mut fut = PutBuffer { writer: &mut sink, buffer: &src[..total], offset };
+        res = ctx_poll(&mut fut);
+        o2 = fut.offset;
+    }
+    let written = sink.pos;
+    assert!(o2 == offset + written && o2 <= total);
+    let j: usize = kani::any();
+    if j < written {
+        assert!(sink.data[j] == src[offset + j]);
+    }
+    match res {
+        Poll::Pending => { assert!(sink.last == 0 && o2 < total); }
+        Poll::Ready(Ok(())) => { assert!(o2 == total); }
+        Poll::Ready(Err(IoWriteError::Stopped)) => { assert!(sink.last == 1); }
+        Poll::Ready(Err(IoWriteError::NotConnected)) => { assert!(sink.last == 2); }
+    }
+    kani::cover!(matches!(res, Poll::Ready(Ok(()))) && total == 8);
+    kani::cover!(matches!(res, Poll::Ready(Ok(()))) && total == 0);
+    kani::cover!(matches!(res, Poll::Pending) && o2 > offset);
+}
+
+/// io::Error -> IoReadError / IoWriteError mapping (every ErrorKind the traits document).
+#[kani::proof]
+pub fn p_io_error_mapping() {
+    assert!(matches!(IoReadError::from(std::io::Error::from(IoErrorKind::ConnectionReset)), IoReadError::Reset));
+    assert!(matches!(IoReadError::from(std::io::Error::from(IoErrorKind::NotConnected)), IoReadError::NotConnected));
+    assert!(matches!(IoWriteError::from(std::io::Error::from(IoErrorKind::ConnectionReset)), IoWriteError::Stopped));
+    assert!(matches!(IoWriteError::from(std::io::Error::from(IoErrorKind::NotConnected)), IoWriteError::NotConnected));
+}
